@@ -119,10 +119,15 @@ func (g *c09Gen) gen(d int, loopVar string, inLoop bool) *c09Node {
 		n.a = g.gen(d-1, n.v, true)
 	case c09ForStr:
 		n.seq = g.fresh("w")
-		k := verifChoice(g.maxLen + 1)
+		k := verifChoice(g.maxLen + 2)
 		s := ""
-		for i := 0; i < k; i++ {
+		for i := 0; i < k && k <= g.maxLen; i++ {
 			s += g.letter()
+		}
+		if k > g.maxLen {
+			// unicode text: positions count characters, not bytes
+			s = []string{"h\u00e9j", "\u4f60\u597da", "a\u20ac"}[verifChoice(3)]
+			n.args = []string{"u"}
 		}
 		g.strs[n.seq] = s
 		g.ctx[n.seq] = s
@@ -197,7 +202,7 @@ func (g *c09Gen) print(n *c09Node) string {
 		if n.rev {
 			s += " reversed"
 		}
-		return s + " %}{{ " + n.v + " }}{{ forloop.Counter }}{% empty %}E{% endfor %}"
+		return s + " %}{{ " + n.v + " }}{{ forloop.Counter }}{{ forloop.Revcounter0 }}{% if forloop.First %}F{% endif %}{% if forloop.Last %}L{% endif %}{% empty %}E{% endfor %}"
 	case c09ForMap:
 		s := "{% for k, v in " + n.seq
 		if n.rev {
@@ -309,12 +314,19 @@ func (g *c09Gen) interp(n *c09Node, e *c09Env) string {
 			return "E"
 		}
 		out := ""
-		for i := 0; i < len(s); i++ {
-			c := s[i]
+		rs := []rune(s)
+		for i := 0; i < len(rs); i++ {
+			c := rs[i]
 			if n.rev {
-				c = s[len(s)-1-i]
+				c = rs[len(rs)-1-i]
 			}
-			out += string([]byte{c}) + itoa(i+1)
+			out += string(c) + itoa(i+1) + itoa(len(rs)-i-1)
+			if i == 0 {
+				out += "F"
+			}
+			if i == len(rs)-1 {
+				out += "L"
+			}
 		}
 		return out
 	case c09ForMap:
